@@ -9,7 +9,8 @@ RULE = ('E4 crash points: every reference-encoded valid frame of the corpus '
         'deviation vectors in quick / full products in thorough, content '
         'headers of the C02 space) x every cut point 0..len-1 (frames over '
         '4096 bytes: first/last 300 offsets, every structural field boundary '
-        '+-2 and every 251st offset). A case is one strict prefix; distinct '
+        '+-2 and every 251st offset); the representative frames again with '
+        'debug logging switched on. A case is one strict prefix; distinct '
         'by content; non-trivial = cut inside the frame body (>= 7 bytes).')
 BOUNDS = {'quick': {'frames': 'K_rep + misc + <=2-deviation method vectors + '
                     'C02-quick headers', 'cuts': 'all (structural subset above '
@@ -22,7 +23,10 @@ ASSUMPTIONS = ['frames are produced by the reference encoder (C04 shows the '
 
 
 def tasks(tier, seed):
-    return frames.frame_tasks(tier)
+    # the representative frames once more with debug logging switched on
+    # (process environment: must not change what a prefix raises)
+    return frames.frame_tasks(tier) + [('debug-logging', 'rep'),
+                                       ('debug-logging', 'misc')]
 
 
 def check_prefix(ctx, prefix, label, cut):
@@ -61,15 +65,26 @@ def check_prefix(ctx, prefix, label, cut):
 
 
 def run(task, ctx):
+    if task[0] == 'debug-logging':
+        with lib.debug_logging():
+            run_frames(task[1:], ctx, ' [debug logging on]')
+    else:
+        run_frames(task, ctx, '')
+
+
+def run_frames(task, ctx, env):
     for label, data, fields, _trivial in frames.frames(task, ctx.tier,
                                                        ctx.seed):
+        label += env
+        if env and len(data) > 5000:
+            continue
         cuts = faults.cut_points(data, fields, every=False)
         if len(data) > 4096:
             ctx.count('frames_cut_structurally')
         ctx.count('frames')
         for cut in cuts:
             prefix = data[:cut]
-            ctx.case(prefix, cut >= 7,
+            ctx.case((prefix, env), cut >= 7,
                      sample=lambda: {'frame': label, 'cut': cut,
                                      'of': len(data),
                                      'prefix': prefix[:24].hex()})
@@ -80,4 +95,8 @@ def run(task, ctx):
 
 def replay(case, ctx):
     data = bytes.fromhex(case['hex'])
+    if '[debug logging on]' in case.get('label', ''):
+        with lib.debug_logging():
+            check_prefix(ctx, data, case.get('label', ''), len(data))
+        return
     check_prefix(ctx, data, case.get('label', ''), len(data))
